@@ -50,6 +50,12 @@ P.update({
  "C19": dict(live=True, cat="proof", technique="Coq proof by induction over OS event lists (all fault sequences, all call sequences) + fault enumeration against the real randombytes.cpp under a scripted OS",
    text="randombytes_correct / calls_correct: on every event list on which the calls complete the output is exactly the delivered bytes in order, total xlen, at most one successful open ever. Correspondence: randombytes.cpp textually included with open/read/sleep scripted; all fault sequences up to length 4 (thorough 6) over {open fails, -1, 0, short 1, short k-1, full}, multi-call histories, exhausted scripts (must stay blocked), the 2^20 chunk limit; bytes, read sizes, opens, sleeps compared.",
    note=TB + "Progress (fuel adequacy) is not stated as a theorem; an OS returning more than asked is outside the model."),
+ "C09": dict(live=True, cat="proof", technique="Coq proofs about the per-word decoders of every sampler (canonical range, one signed value across all moduli) + tape-driven differential correspondence",
+   text="uniform: any word decodes into [0,p); bounded with amplifier, ternary, Gaussian wrapper: the stored word is (signed value) mod p for every modulus with the value bound stated; refutation of the pinned p+1 encoding. Correspondence: nfl::fastrandombytes replaced at link time by a scripted tape; boundary words (mask, p-1, p, p+1, 2B-2, 2B-1, B-1, B, all-ones), every byte value x thresholds, random index/sign tapes for every weight; the implementation's own output is checked for canonicity and cross-modulus consistency, and compared word for word with the extracted model. Found and fixed: +1 stored as p+1.",
+   note=TB + "Hypothesis A*(B-1) < p for the amplified bounded sampler (the code does not check it). Setters from constants/lists/big integers are covered by C15; the Gaussian wrapper's correspondence by C10/C11."),
+ "C12": dict(live=True, cat="proof", technique="Coq proofs of preimage counts (uniform, ternary by finite vm_compute sweep, rejection step) and of reservoir-sampling uniformity for all (h,m) + exhaustive tape enumeration against the formulas",
+   text="Uniform: residue r has exactly the preimages r, r+p; ternary: for all 256 thresholds #non-zero = rho+1, imbalance <= 2, 0 for 0x7F; reservoir sampling: every h-subset occurs m! times over all draw tuples (all h, m); rejection step uniform on [0,k]. Exhaustive enumeration on the real code: all 2^16 words through both 16-bit moduli, every masked word for each (B,A), all 256 bytes per threshold, every reduced index tape for every (n,h) with n in {2,4,8} (thorough: up to 40 320 tapes) - measured multiplicities must equal the proved formulas. Found and fixed: reservoir index drawn from [0,k).",
+   note=TB + "The slot-array -> subset refinement of hwt_dist is tied by exhaustive enumeration for n <= 8, not proved in general."),
 })
 ALL = ["C%02d" % i for i in range(1, 20)]
 checks, na = [], []
